@@ -1,13 +1,202 @@
 (* C15 — property theorems only.  Each is closed by [exact <lemma>] and followed by
-   Print Assumptions; the statements are pinned here so they cannot be quietly weakened. *)
-From FB Require Import C15.Model C15.Theory.
+   Print Assumptions; the statements are pinned here so they cannot be quietly weakened.
 
-(* The collecting loop of get_specialized_methods returns exactly the (method, callee) pairs that
-   pass the filter chain, for every jar (first milestone: stated against the index tables). *)
-Theorem C15_bridge_index : forall J b2s s2b,
+   Vocabulary (coq/C15/Theory.v, Theory2.v):
+     access_of J b      the access flags the jar gives the method reference b
+     invoked J b r      the body of b invokes the object-class method r
+     parent / ancestor  super class other than java/lang/Object or interface; transitive closure
+     compatP J tb ts    bridge-compatible types: equal, or both object types and the bridge's is
+                        java/lang/Object, or not a class of the jar, or some ancestor of the
+                        delegate's type is the bridge's type or not a class of the jar
+     potentialP         not private/final/static, both descriptors parse, same arity,
+                        position-wise compatible parameters, compatible return (void with void)
+     is_bridge_pair     synthetic /\ calls = {s} /\ (bridge flag \/ potentialP)
+     class_frame        a class of the result against the class it came from (see below)
+   Hypothesis `get_specialized J = Ok _`: the hierarchy work-lists did not exhaust their fuel
+   (the Rust loops have no visited set and do not terminate on a cyclic hierarchy). *)
+From FB Require Import C15.Model C15.Theory C15.Theory2.
+
+(* 1. bridge_iff: the pairs collected by Jar::get_specialized_methods are exactly the bridge pairs *)
+Theorem C15_bridge_iff : forall J b2s s2b,
   get_specialized J = Ok (b2s, s2b) ->
   forall b s, In (b, s) b2s <->
-    exists a, map_get mref_eqb b (ix_methods J) = Some a /\
-              decide (jar_fuel J) (ix_classes J) (ix_parents J) (ix_refs J) b a = Ok (Some s).
-Proof. exact bridge_index. Qed.
-Print Assumptions C15_bridge_index.
+    exists a, access_of J b = Some a /\
+              a_synthetic a = true /\
+              (forall r, invoked J b r <-> r = s) /\
+              (a_bridge a = true \/ potentialP J b a s).
+Proof. exact bridge_iff. Qed.
+Print Assumptions C15_bridge_iff.
+
+(* the declarative predicates are what the code computes: the work-list yields the transitive
+   closure of the parent relation, and the type test is compatP *)
+Theorem C15_ancestors_closure : forall J fuel s l,
+  walk fuel (ix_parents J) [s] [] = Ok l -> forall a, In a l <-> ancestor J s a.
+Proof. exact ancestors_spec. Qed.
+Print Assumptions C15_ancestors_closure.
+
+Theorem C15_compat_spec : forall J fuel tb ts v,
+  compat fuel (ix_classes J) (ix_parents J) tb ts = Ok v -> (v = true <-> compatP J tb ts).
+Proof. exact compat_spec. Qed.
+Print Assumptions C15_compat_spec.
+
+Theorem C15_potential_spec : forall J fuel b a s v,
+  is_potential_bridge fuel (ix_classes J) (ix_parents J) b a s = Ok v -> (v = true <-> potentialP J b a s).
+Proof. exact potential_spec. Qed.
+Print Assumptions C15_potential_spec.
+
+(* 2. mappings_frame: for every lookup function `named`, every pair list P and every mapping set
+   with distinct class keys, the result keeps namespaces, javadoc, class rows and fields; per
+   class (key cname) and method key k: when no pair of P has its bridge in cname and delegate key
+   k the lookup of k is unchanged; otherwise, for the last such bridge b, the entry is exactly
+   {desc := snd k; names := [fst k; named b]; javadoc and parameters of the old entry, if any}.
+   Method keys stay distinct, classes without a key are untouched. *)
+Theorem C15_mappings_frame : forall named P M M',
+  NoDup (map class_key (ms_classes M)) ->
+  add_pairs named P M = Ok M' ->
+  ms_ns M' = ms_ns M /\ ms_doc M' = ms_doc M /\
+  Forall2 (fun c c' =>
+    c_names c' = c_names c /\ c_doc c' = c_doc c /\ c_fields c' = c_fields c /\
+    (NoDup (map meth_key (c_methods c)) -> NoDup (map meth_key (c_methods c'))) /\
+    (class_key c = None -> c' = c) /\
+    forall cname, class_key c = Some cname ->
+      forall k, match lastp P cname k with
+                | None => find_meth k (c_methods c') = find_meth k (c_methods c)
+                | Some b => exists nm, named b = Ok nm /\
+                    find_meth k (c_methods c')
+                    = Some (mkMeth (snd k) (names2 (fst k) nm)
+                              (doc_of (find_meth k (c_methods c))) (params_of (find_meth k (c_methods c))))
+                end) (ms_classes M) (ms_classes M').
+Proof. exact mappings_frame. Qed.
+Print Assumptions C15_mappings_frame.
+
+Theorem C15_lastp_none : forall P c k,
+  lastp P c k = None <-> forall b s, In (b, s) P -> ~ (mr_class b = c /\ snd s = k).
+Proof. exact lastp_None. Qed.
+Print Assumptions C15_lastp_none.
+
+Theorem C15_lastp_one_bridge : forall P b s,
+  one_bridge_per_delegate P -> In (b, s) P -> lastp P (mr_class b) (snd s) = Some b.
+Proof. exact lastp_unique. Qed.
+Print Assumptions C15_lastp_one_bridge.
+
+(* entries not keyed by a delegate are returned unchanged and nothing else appears *)
+Theorem C15_frame_unchanged : forall named P c c' cname m (k : key),
+  class_frame named P c c' -> class_key c = Some cname -> NoDup (map meth_key (c_methods c)) ->
+  meth_key m = Some k -> (forall b s, In (b, s) P -> ~ (mr_class b = cname /\ snd s = k)) ->
+  (In m (c_methods c') <-> In m (c_methods c)).
+Proof. exact frame_unchanged. Qed.
+Print Assumptions C15_frame_unchanged.
+
+(* a delegate gets exactly the stated names, in the bridge's class *)
+Theorem C15_frame_delegate : forall named P c c' b s,
+  class_frame named P c c' -> class_key c = Some (mr_class b) ->
+  one_bridge_per_delegate P -> In (b, s) P ->
+  exists nm m', named b = Ok nm /\ In m' (c_methods c') /\
+    m_desc m' = mr_desc s /\ m_names m' = names2 (mr_name s) nm /\
+    m_doc m' = doc_of (find_meth (snd s) (c_methods c)) /\ m_params m' = params_of (find_meth (snd s) (c_methods c)).
+Proof. exact frame_delegate. Qed.
+Print Assumptions C15_frame_delegate.
+
+(* the function the build calls: the pairs that reach the insertion are bridge pairs of the jar
+   re-expressed in intermediary names, the lookup is the remapper's, the result is the frame *)
+Theorem C15_add_specialized_spec : forall J cal libs M M',
+  NoDup (map class_key (ms_classes M)) ->
+  add_specialized J cal libs M = Ok M' ->
+  exists P,
+    (forall b' s', In (b', s') P ->
+       exists b s, is_bridge_pair J b s /\ cal_ref J cal libs b = Ok b' /\ cal_ref J cal libs s = Ok s') /\
+    ms_ns M' = ms_ns M /\ ms_doc M' = ms_doc M /\
+    Forall2 (class_frame (named_ref J cal libs M) P) (ms_classes M) (ms_classes M').
+Proof. exact add_specialized_spec. Qed.
+Print Assumptions C15_add_specialized_spec.
+
+(* no bridge pair of the jar lands on (class cname, key k) => that entry is returned unchanged:
+   ordinary methods, synthetics calling zero or several methods, incompatible signatures cause
+   no rename (combine with the C15_miss_* theorems) *)
+Theorem C15_add_specialized_no_rename : forall J cal libs M M',
+  NoDup (map class_key (ms_classes M)) ->
+  add_specialized J cal libs M = Ok M' ->
+  Forall2 (fun c c' => forall cname (k : key), class_key c = Some cname ->
+      (forall b s b' s', is_bridge_pair J b s -> cal_ref J cal libs b = Ok b' -> cal_ref J cal libs s = Ok s' ->
+                         ~ (mr_class b' = cname /\ snd s' = k)) ->
+      find_meth k (c_methods c') = find_meth k (c_methods c)) (ms_classes M) (ms_classes M').
+Proof. exact add_specialized_no_rename. Qed.
+Print Assumptions C15_add_specialized_no_rename.
+
+(* specialized_to_bridge: one entry per delegate, naming one of its bridges; the tie-break keeps the
+   new bridge exactly when the other bridge's class is a (transitive) subtype of the new one's *)
+Theorem C15_s2b_spec : forall J b2s s2b,
+  get_specialized J = Ok (b2s, s2b) ->
+  (forall s b, In (s, b) s2b -> In (b, s) b2s) /\
+  (forall b s, In (b, s) b2s -> exists b', In (s, b') s2b) /\
+  NoDup (map fst s2b).
+Proof. exact s2b_spec. Qed.
+Print Assumptions C15_s2b_spec.
+
+Theorem C15_get_higher_spec : forall J fuel b1 b2 r,
+  get_higher fuel (ix_children J) b1 b2 = Ok r ->
+  (r = b1 /\ descendant J (mr_class b1) (mr_class b2)) \/
+  (r = b2 /\ ~ descendant J (mr_class b1) (mr_class b2)).
+Proof. exact get_higher_spec. Qed.
+Print Assumptions C15_get_higher_spec.
+
+(* the decidable well-formedness of mapping sets gives the distinct keys assumed above *)
+Theorem C15_wf_class_keys : forall M, wf M = true -> NoDup (map class_key (ms_classes M)).
+Proof. exact wf_class_keys. Qed.
+Print Assumptions C15_wf_class_keys.
+
+Theorem C15_wf_meth_keys : forall M c, wf M = true -> In c (ms_classes M) -> NoDup (map meth_key (c_methods c)).
+Proof. exact wf_meth_keys. Qed.
+Print Assumptions C15_wf_meth_keys.
+
+(* 3. near misses: none of these methods is the bridge of any pair *)
+Theorem C15_miss_not_a_method : forall J b2s s2b, get_specialized J = Ok (b2s, s2b) ->
+  forall b s, access_of J b = None -> ~ In (b, s) b2s.
+Proof. exact miss_not_a_method. Qed.
+Print Assumptions C15_miss_not_a_method.
+
+Theorem C15_miss_not_synthetic : forall J b2s s2b, get_specialized J = Ok (b2s, s2b) ->
+  forall b a s, access_of J b = Some a -> a_synthetic a = false -> ~ In (b, s) b2s.
+Proof. exact miss_not_synthetic. Qed.
+Print Assumptions C15_miss_not_synthetic.
+
+Theorem C15_miss_no_callee : forall J b2s s2b, get_specialized J = Ok (b2s, s2b) ->
+  forall b s, (forall r, ~ invoked J b r) -> ~ In (b, s) b2s.
+Proof. exact miss_no_callee. Qed.
+Print Assumptions C15_miss_no_callee.
+
+Theorem C15_miss_several_callees : forall J b2s s2b, get_specialized J = Ok (b2s, s2b) ->
+  forall b s r1 r2, invoked J b r1 -> invoked J b r2 -> r1 <> r2 -> ~ In (b, s) b2s.
+Proof. exact miss_several_callees. Qed.
+Print Assumptions C15_miss_several_callees.
+
+Theorem C15_miss_private_static_final : forall J b2s s2b, get_specialized J = Ok (b2s, s2b) ->
+  forall b a s, access_of J b = Some a -> a_bridge a = false ->
+  a_private a || a_static a || a_final a = true -> ~ In (b, s) b2s.
+Proof. exact miss_private_static_final. Qed.
+Print Assumptions C15_miss_private_static_final.
+
+Theorem C15_miss_arity : forall J b2s s2b, get_specialized J = Ok (b2s, s2b) ->
+  forall b a s pb rb ps rs, access_of J b = Some a -> a_bridge a = false ->
+  parse_method (mr_desc b) = Ok (pb, rb) -> parse_method (mr_desc s) = Ok (ps, rs) ->
+  length pb <> length ps -> ~ In (b, s) b2s.
+Proof. exact miss_arity. Qed.
+Print Assumptions C15_miss_arity.
+
+Theorem C15_miss_incompatible : forall J b2s s2b, get_specialized J = Ok (b2s, s2b) ->
+  forall b a s pb rb ps rs, access_of J b = Some a -> a_bridge a = false ->
+  parse_method (mr_desc b) = Ok (pb, rb) -> parse_method (mr_desc s) = Ok (ps, rs) ->
+  ~ (Forall2 (compatP J) pb ps /\ ret_compatP J rb rs) -> ~ In (b, s) b2s.
+Proof. exact miss_incompatible. Qed.
+Print Assumptions C15_miss_incompatible.
+
+(* more fuel never changes an answer *)
+Theorem C15_walk_fuel_mono : forall G f stack out r k,
+  walk f G stack out = Ok r -> walk (f + k) G stack out = Ok r.
+Proof. exact walk_mono. Qed.
+Print Assumptions C15_walk_fuel_mono.
+
+(* non-vacuity: /repo's fixture MyNode/Node (flagged and unflagged), a well-formed mapping set *)
+Theorem C15_examples : nonvacuous.
+Proof. exact nonvacuous_holds. Qed.
+Print Assumptions C15_examples.
